@@ -46,6 +46,22 @@ def gen_history(rng, tag, shipped):
             if d in sysm.by_dim and rng.random() < 0.7:
                 a = rng.choice(sysm.by_dim[d])
                 extra.append(["declare", ["u", a], ["i", rng.choice([1, 2, 4, 8])], ["u", target]])
+    # now and then the user also states something odd: an equivalence across dimensions (a mass taken for an energy),
+    # or a ratio so large that its square leaves the float range.  Searches that run into these are abandoned by an
+    # exception; the questions about everything else must go on being answered as in a fresh process
+    odd_defs, odd_queries = [], []
+    if rng.random() < 0.4:
+        o = [f"zq{tag}odd{k}" for k in range(6)]
+        odd_defs = [["define", o[0], o[0], ["dimname", "mass"]], ["define", o[1], o[1], ["dimname", "energy"]], ["define", o[2], o[2], ["dimname", "mass"]],
+                    ["define", o[3], o[3], ["dimname", "energy"]], ["define", o[4], o[4], ["dimname", "length"]], ["define", o[5], o[5], ["dimname", "length"]]]
+        extra.append(["declare", ["u", o[0]], ["i", 4], ["u", o[1]]])            # mass = energy
+        extra.append(["declare", ["u", o[2]], ["i", 2], ["u", o[0]]])
+        extra.append(["declare", ["u", o[3]], ["i", 8], ["u", o[1]]])
+        extra.append(["declare", ["u", o[4]], ["f", (1e200).hex()], ["u", o[5]]])  # a ratio whose square overflows
+        odd_queries = [["convert", ["i", 1], ["u", o[2]], ["u", o[3]]], ["convert", ["i", 1], ["u", o[3]], ["u", o[2]]], ["eq", ["i", 1], ["u", o[2]], ["i", 4], ["u", o[1]]],
+                       ["convert", ["i", 2], ["pow", ["u", o[4]], 2], ["pow", ["u", o[5]], 2]], ["convert", ["i", 2], ["pow", ["u", o[5]], 3], ["pow", ["u", o[4]], 3]],
+                       ["lt", ["i", 1], ["mul", ["u", o[2]], ["u", o[4]]], ["i", 1], ["mul", ["u", o[3]], ["u", o[5]]]]]
+    defs = defs + odd_defs
     rng.shuffle(decls)
     # the re-declaration must come *after* the original to change the answer; bridges anywhere
     decls = decls + extra if rng.random() < 0.5 else decls[: len(decls) // 2] + extra + decls[len(decls) // 2:]
@@ -86,13 +102,19 @@ def gen_history(rng, tag, shipped):
             q = rng.choice(finals) if rng.random() < 0.7 else rand_query()
             if rng.random() < 0.3:
                 q = reverse(q)
+            if odd_queries and rng.random() < 0.3:
+                ops1.append(rng.choice(odd_queries))   # abandoned by an exception, or not: it only has to leave no trace
             ops1.append(q)
         ops1.append(["cache_info"])
         ops1.append(d)
     # after the last declaration nothing empties the memo tables any more: questions asked now (the finals the other
     # way round, other pairs) are the history the final answers must not depend on
     for _ in range(rng.randint(0, 6)):
+        if odd_queries and rng.random() < 0.5:
+            ops1.append(rng.choice(odd_queries))
         ops1.append(reverse(rng.choice(finals)) if rng.random() < 0.7 else rand_query())
+    if odd_queries:
+        ops1.append(rng.choice(odd_queries))   # the first final question is the first search after an abandoned one
     final_start = len(ops1)
     ops1 += finals
     ops1 += [["cache_info"], ["flush"]]
